@@ -7,6 +7,9 @@
 //!   * `#[emit::span(rt: *rt, "node", id)]` on a sync fn and on an async fn (two static call sites, driven
 //!     recursively by the tree), `emit::new_span!` + `Frame::call` / `Frame::in_future`, and `SpanGuard::new` directly
 //!     (with extra user ctxt props) + `Frame::call` / `Frame::in_future`;
+//!   * `#[emit::span(.., ok_lvl / err_lvl / err: .., ..)]` on sync and async fns returning `Result` (four more static call
+//!     sites) whose bodies end `Ok(())`, with `fail()?` or with `return Err(..)` as scripted: the Ok arm completes through
+//!     `__private_complete_span_ok`, the Err arm through `__private_complete_span_err`, both inside the frame;
 //!   * events through `emit::emit!`, observations through `SpanCtxt::current`;
 //!   * bodies carried to another actor thread inside `Frame::current(ctxt).in_fn`, async subtrees wrapped in
 //!     `Frame::current(ctxt).in_future` and polled by hand, the k-th poll on a scripted thread; `(yield)` suspends;
@@ -245,6 +248,14 @@ impl Props for DynProps {
     }
 }
 
+/// how the body of a `Result`-returning span fn ends (after its children ran)
+#[derive(Clone, Copy, PartialEq, Debug)]
+enum Exit {
+    Ok,
+    ErrQ,   // `fail()?`
+    ErrRet, // `return Err(..)`
+}
+
 #[derive(Clone, Copy, PartialEq, Debug)]
 enum SKind {
     Sync,
@@ -253,11 +264,43 @@ enum SKind {
     Async,
     ANewSpan,
     ADirect,
+    /// `#[emit::span(.., ok_lvl / err_lvl / err, ..)]` on a sync fn returning `Result` (two call sites)
+    RSync(u8, Exit),
+    /// the same on an async fn (two call sites)
+    RAsync(u8, Exit),
 }
 
 impl SKind {
     fn is_async(self) -> bool {
-        matches!(self, SKind::Async | SKind::ANewSpan | SKind::ADirect)
+        matches!(self, SKind::Async | SKind::ANewSpan | SKind::ADirect | SKind::RAsync(..))
+    }
+    fn parse(a: &str) -> Option<SKind> {
+        let exit = |e: &str| {
+            Some(match e {
+                "ok" => Exit::Ok,
+                "errq" => Exit::ErrQ,
+                "errret" => Exit::ErrRet,
+                _ => return None,
+            })
+        };
+        Some(match a {
+            "sync" => SKind::Sync,
+            "newspan" => SKind::NewSpan,
+            "direct" => SKind::Direct,
+            "async" => SKind::Async,
+            "anewspan" => SKind::ANewSpan,
+            "adirect" => SKind::ADirect,
+            _ => {
+                let (site, e) = a.split_once('.')?;
+                match site {
+                    "rsync" => SKind::RSync(0, exit(e)?),
+                    "rsync2" => SKind::RSync(1, exit(e)?),
+                    "rasync" => SKind::RAsync(0, exit(e)?),
+                    "rasync2" => SKind::RAsync(1, exit(e)?),
+                    _ => return None,
+                }
+            }
+        })
     }
 }
 
@@ -337,15 +380,7 @@ fn parse_t(s: &Sexp, in_async: bool) -> Option<T> {
         ("event", 2) => T::Event { eid: a[0].as_u64()?, own: parse_props(&a[1], "props")? },
         ("cur", 1) => T::Cur(a[0].as_u64()?),
         ("span", n) if n >= 6 => {
-            let kind = match a[1].as_atom()? {
-                "sync" => SKind::Sync,
-                "newspan" => SKind::NewSpan,
-                "direct" => SKind::Direct,
-                "async" => SKind::Async,
-                "anewspan" => SKind::ANewSpan,
-                "adirect" => SKind::ADirect,
-                _ => return None,
-            };
+            let kind = SKind::parse(a[1].as_atom()?)?;
             if kind.is_async() && !in_async {
                 return None;
             }
@@ -430,6 +465,54 @@ async fn span_async<P: Parts>(rt: &'static RtOf<P>, id: u64, children: Arc<Vec<T
     run_async_list::<P>(children, actors).await
 }
 
+// the Result-aware completion: `complete_with(__private_complete_span_ok / _err)` runs inside the frame too
+
+fn fail() -> Result<(), std::io::Error> {
+    Err(std::io::Error::new(std::io::ErrorKind::Other, "scripted failure"))
+}
+
+fn as_err(err: &std::io::Error) -> &(dyn std::error::Error + 'static) {
+    err
+}
+
+macro_rules! result_exit {
+    ($exit:expr) => {
+        match $exit {
+            Exit::Ok => {}
+            Exit::ErrQ => fail()?,
+            Exit::ErrRet => return Err(std::io::Error::new(std::io::ErrorKind::Other, "scripted return")),
+        }
+    };
+}
+
+#[emit::span(rt: *rt, ok_lvl: emit::Level::Info, "node", id)]
+fn span_rsync<P: Parts>(rt: &'static RtOf<P>, id: u64, exit: Exit, children: &Arc<Vec<T>>, actors: &Arc<Actors>) -> Result<(), std::io::Error> {
+    run_sync_list::<P>(children, actors);
+    result_exit!(exit);
+    Ok(())
+}
+
+#[emit::span(rt: *rt, err_lvl: "warn", err: (|_| "failed"), "node", id)]
+fn span_rsync2<P: Parts>(rt: &'static RtOf<P>, id: u64, exit: Exit, children: &Arc<Vec<T>>, actors: &Arc<Actors>) -> Result<(), std::io::Error> {
+    run_sync_list::<P>(children, actors);
+    result_exit!(exit);
+    Ok(())
+}
+
+#[emit::span(rt: *rt, err_lvl: emit::Level::Warn, "node", id)]
+async fn span_rasync<P: Parts>(rt: &'static RtOf<P>, id: u64, exit: Exit, children: Arc<Vec<T>>, actors: Arc<Actors>) -> Result<(), std::io::Error> {
+    run_async_list::<P>(children, actors).await;
+    result_exit!(exit);
+    Ok(())
+}
+
+#[emit::span(rt: *rt, ok_lvl: emit::Level::Debug, err: as_err, "node", id)]
+async fn span_rasync2<P: Parts>(rt: &'static RtOf<P>, id: u64, exit: Exit, children: Arc<Vec<T>>, actors: Arc<Actors>) -> Result<(), std::io::Error> {
+    run_async_list::<P>(children, actors).await;
+    result_exit!(exit);
+    Ok(())
+}
+
 fn span_direct<P: Parts>(
     id: u64,
     user: &PropList,
@@ -475,6 +558,10 @@ fn run_sync<P: Parts>(t: &T, actors: &Arc<Actors>) {
             set_rng(*r_t, *rs);
             match kind {
                 SKind::Sync => span_sync::<P>(rt, *id, children, actors),
+                SKind::RSync(site, exit) => {
+                    let r = if *site == 0 { span_rsync::<P>(rt, *id, *exit, children, actors) } else { span_rsync2::<P>(rt, *id, *exit, children, actors) };
+                    assert_eq!(r.is_ok(), *exit == Exit::Ok);
+                }
                 SKind::NewSpan => {
                     let id = *id;
                     let (mut guard, frame) = emit::new_span!(rt: *rt, "node", id);
@@ -544,6 +631,14 @@ fn run_async_list<P: Parts>(ts: Arc<Vec<T>>, actors: Arc<Actors>) -> BoxFut {
                     set_rng(*r_t, *rs);
                     match kind {
                         SKind::Async => span_async::<P>(rt, *id, children.clone(), actors.clone()).await,
+                        SKind::RAsync(site, exit) => {
+                            let r = if *site == 0 {
+                                span_rasync::<P>(rt, *id, *exit, children.clone(), actors.clone()).await
+                            } else {
+                                span_rasync2::<P>(rt, *id, *exit, children.clone(), actors.clone()).await
+                            };
+                            assert_eq!(r.is_ok(), *exit == Exit::Ok);
+                        }
                         SKind::ANewSpan => {
                             let id = *id;
                             let (mut guard, frame) = emit::new_span!(rt: *rt, "node", id);
@@ -818,12 +913,31 @@ impl<'a> Gen<'a> {
                 4 | 5 => Sexp::tagged("cur", vec![Sexp::num(self.fresh())]),
                 6..=14 if deep => {
                     let id = self.fresh();
-                    let kind = if in_async {
-                        *self.rng.pick(&["async", "async", "anewspan", "adirect", "sync", "newspan", "direct"])
+                    let exit = *self.rng.pick(&["ok", "errq", "errret"]);
+                    let kind: String = if in_async {
+                        match self.rng.below(11) {
+                            0 | 1 => "async".into(),
+                            2 => "anewspan".into(),
+                            3 => "adirect".into(),
+                            4 => "sync".into(),
+                            5 => "newspan".into(),
+                            6 => "direct".into(),
+                            7 => format!("rasync.{}", exit),
+                            8 => format!("rasync2.{}", exit),
+                            9 => format!("rsync.{}", exit),
+                            _ => format!("rsync2.{}", exit),
+                        }
                     } else {
-                        *self.rng.pick(&["sync", "sync", "newspan", "direct"])
+                        match self.rng.below(7) {
+                            0 | 1 => "sync".into(),
+                            2 => "newspan".into(),
+                            3 => "direct".into(),
+                            4 | 5 => format!("rsync.{}", exit),
+                            _ => format!("rsync2.{}", exit),
+                        }
                     };
-                    let child_async = matches!(kind, "async" | "anewspan" | "adirect");
+                    let kind = kind.as_str();
+                    let child_async = matches!(kind, "async" | "anewspan" | "adirect") || kind.starts_with("rasync");
                     let en = Sexp::bool(!self.rng.chance(1, 4));
                     let (rt, rs) = (self.trace_reading(), self.span_reading());
                     let user = if matches!(kind, "direct" | "adirect") { self.id_props("props", 2) } else { Sexp::tagged("props", vec![]) };
